@@ -151,7 +151,8 @@ def shape_map_items(rnd, T, classes, wildcards=False):
             it.update(kind="node", node=[n[0], n[1]])
         elif r < .7 and classes:
             it.update(kind="pattern", ps=["FOCUS", ""], pp=M.RDF_TYPE, po=["IRI", rnd.choice(classes)],
-                      syntax=rnd.choice(["focus", "sparql"]))
+                      syntax=rnd.choice(["focus", "sparql"]),
+                      sparqlLayout=rnd.choice(["plain", "plain", "upper", "nowhere", "brace", "tab", "newline", "distinct"]))
         elif props:
             p = rnd.choice(props)
             objs = sorted({o for s, pp, o in T if pp == p and o[0] == "IRI"})
